@@ -496,6 +496,10 @@ func redactPipelineStage(stage interface{}, redactFieldNames bool, keyPath []str
 						for subEl := vMap.Front(); subEl != nil; subEl = subEl.Next() {
 							subK := subEl.Key
 							subV := subEl.Value
+							if redactFieldNames && !strings.HasPrefix(subK, "$") {
+								// the name of a $facet output field: later stages refer to it as a field
+								subK = HashName(subK)
+							}
 							if subVArr, ok := subV.([]any); ok {
 								newPipeline := make([]any, len(subVArr))
 								for i, stage := range subVArr {
